@@ -1,0 +1,204 @@
+//! Verification hooks. Only compiled with the cargo feature `verif`; the shipped
+//! library never contains any of this.
+//!
+//! * `tick(site)`: a simulated clock. Every loop whose trip count depends on the
+//!   input calls it once per iteration, so "does not hang" becomes "stays within a
+//!   step budget", deterministically.
+//! * `buggify(site)`: a coin owned by the simulator that denies an internal fast
+//!   path so that the general path is taken instead.
+//! * `probe(site)`: reach counters.
+//!
+//! All state is thread local.
+
+use std::cell::Cell;
+
+#[derive(Clone, Copy, Debug, PartialEq, Eq)]
+#[repr(usize)]
+pub enum TickSite {
+    DashOffset = 0,
+    DashLine,
+    DashClose,
+    RasterRow,
+    InsertEdges,
+    MergeEdges,
+    StepEdges,
+    SortEdges,
+    EdgeStepIn,
+    CurveAdvanceAdd,
+    CurveAdvanceStep,
+    CubicToQuads,
+    FlattenQuad,
+    FlattenCubic,
+    ScanEdges,
+}
+pub const N_TICK_SITES: usize = 15;
+
+pub const TICK_SITE_NAMES: [&str; N_TICK_SITES] = [
+    "DashOffset", "DashLine", "DashClose", "RasterRow", "InsertEdges", "MergeEdges", "StepEdges",
+    "SortEdges", "EdgeStepIn", "CurveAdvanceAdd", "CurveAdvanceStep", "CubicToQuads", "FlattenQuad",
+    "FlattenCubic", "ScanEdges",
+];
+
+#[derive(Clone, Copy, Debug, PartialEq, Eq)]
+#[repr(u32)]
+pub enum BuggifySite {
+    FillRectFast = 0,
+    ImageIntTransform = 1,
+}
+pub const N_BUGGIFY_SITES: usize = 2;
+pub const BUGGIFY_SITE_NAMES: [&str; N_BUGGIFY_SITES] = ["FillRectFast", "ImageIntTransform"];
+
+#[derive(Clone, Copy, Debug, PartialEq, Eq)]
+#[repr(usize)]
+pub enum ProbeSite {
+    BlitShaderMask = 0,
+    BlitShaderClipMask,
+    BlitShaderBlendMask,
+    BlitShaderClipBlendMask,
+    BlitShaderBlend,
+    ShSolid,
+    ShImagePadAlpha,
+    ShImageRepeatAlpha,
+    ShTransformedNearestPadImageAlpha,
+    ShTransformedNearestRepeatImageAlpha,
+    ShTransformedPadImageAlpha,
+    ShTransformedRepeatImageAlpha,
+    ShTransformedPadImage,
+    ShTransformedRepeatImage,
+    ShTransformedNearestPadImage,
+    ShTransformedNearestRepeatImage,
+    ShRadialGradient,
+    ShTwoCircleRadialGradient,
+    ShLinearGradient,
+    ShSweepGradient,
+    CompositeSingular,
+    CompositeEmptyRect,
+    ResetEarlyOut,
+    EdgeDroppedAboveBelow,
+    EdgeDroppedHorizontal,
+    EdgeSteppedIn,
+    EdgeLeftOfBitmap,
+    ClipMaskTimesPrevious,
+    ClipRectOverMask,
+    LayerNonZeroOrigin,
+    LayerEmptyRect,
+    FillRectFastTaken,
+    FillRectFastDenied,
+    ClearDirect,
+    ClearViaFill,
+    FillEmptyBounds,
+    CompositeSurfaceEmpty,
+    CompositeSurfaceRows,
+    QuadChopped,
+    QuadForcedMonotonic,
+}
+pub const N_PROBES: usize = 40;
+
+pub const PROBE_NAMES: [&str; N_PROBES] = [
+    "BlitShaderMask", "BlitShaderClipMask", "BlitShaderBlendMask", "BlitShaderClipBlendMask", "BlitShaderBlend",
+    "ShSolid", "ShImagePadAlpha", "ShImageRepeatAlpha", "ShTransformedNearestPadImageAlpha",
+    "ShTransformedNearestRepeatImageAlpha", "ShTransformedPadImageAlpha", "ShTransformedRepeatImageAlpha",
+    "ShTransformedPadImage", "ShTransformedRepeatImage", "ShTransformedNearestPadImage",
+    "ShTransformedNearestRepeatImage", "ShRadialGradient", "ShTwoCircleRadialGradient", "ShLinearGradient",
+    "ShSweepGradient", "CompositeSingular", "CompositeEmptyRect", "ResetEarlyOut", "EdgeDroppedAboveBelow",
+    "EdgeDroppedHorizontal", "EdgeSteppedIn", "EdgeLeftOfBitmap", "ClipMaskTimesPrevious", "ClipRectOverMask",
+    "LayerNonZeroOrigin", "LayerEmptyRect", "FillRectFastTaken", "FillRectFastDenied", "ClearDirect",
+    "ClearViaFill", "FillEmptyBounds", "CompositeSurfaceEmpty", "CompositeSurfaceRows", "QuadChopped",
+    "QuadForcedMonotonic",
+];
+
+/// Panic payload used when the step budget of the current operation is exhausted.
+#[derive(Clone, Copy, Debug)]
+pub struct BudgetExceeded {
+    pub site: TickSite,
+    pub ticks: u64,
+}
+
+thread_local! {
+    static CLOCK: Cell<u64> = Cell::new(0);
+    static BUDGET: Cell<u64> = Cell::new(u64::MAX);
+    static BUGGIFY_MASK: Cell<u32> = Cell::new(0);
+    static BUGGIFY_FLIPS: [Cell<u64>; N_BUGGIFY_SITES] = Default::default();
+    static PROBES: [Cell<u64>; N_PROBES] = [(); N_PROBES].map(|_| Cell::new(0));
+    static TICKS_BY_SITE: [Cell<u64>; N_TICK_SITES] = [(); N_TICK_SITES].map(|_| Cell::new(0));
+}
+
+/// Start a new operation: the per-operation clock goes back to zero.
+pub fn begin_op(tick_budget: u64) {
+    CLOCK.with(|c| c.set(0));
+    BUDGET.with(|b| b.set(tick_budget));
+}
+
+/// Advance the simulated clock by one step.
+#[inline]
+pub fn tick(site: TickSite) {
+    let now = CLOCK.with(|c| {
+        let n = c.get() + 1;
+        c.set(n);
+        n
+    });
+    TICKS_BY_SITE.with(|t| t[site as usize].set(t[site as usize].get() + 1));
+    if now > BUDGET.with(|b| b.get()) {
+        // disarm so that unwinding code which ticks does not panic again
+        BUDGET.with(|b| b.set(u64::MAX));
+        std::panic::panic_any(BudgetExceeded { site, ticks: now });
+    }
+}
+
+/// Steps taken since the last `begin_op`.
+pub fn ticks() -> u64 {
+    CLOCK.with(|c| c.get())
+}
+
+pub fn take_ticks_by_site() -> [u64; N_TICK_SITES] {
+    let mut out = [0; N_TICK_SITES];
+    TICKS_BY_SITE.with(|t| {
+        for i in 0..N_TICK_SITES {
+            out[i] = t[i].replace(0);
+        }
+    });
+    out
+}
+
+/// Bit `site` of `mask` set means: deny that fast path.
+pub fn set_buggify(mask: u32) {
+    BUGGIFY_MASK.with(|m| m.set(mask));
+}
+
+pub fn get_buggify() -> u32 {
+    BUGGIFY_MASK.with(|m| m.get())
+}
+
+#[inline]
+pub fn buggify(site: BuggifySite) -> bool {
+    let on = BUGGIFY_MASK.with(|m| m.get()) & (1 << (site as u32)) != 0;
+    if on {
+        BUGGIFY_FLIPS.with(|f| f[site as usize].set(f[site as usize].get() + 1));
+    }
+    on
+}
+
+pub fn take_buggify_flips() -> [u64; N_BUGGIFY_SITES] {
+    let mut out = [0; N_BUGGIFY_SITES];
+    BUGGIFY_FLIPS.with(|f| {
+        for i in 0..N_BUGGIFY_SITES {
+            out[i] = f[i].replace(0);
+        }
+    });
+    out
+}
+
+#[inline]
+pub fn probe(site: ProbeSite) {
+    PROBES.with(|p| p[site as usize].set(p[site as usize].get() + 1));
+}
+
+pub fn take_probes() -> [u64; N_PROBES] {
+    let mut out = [0; N_PROBES];
+    PROBES.with(|p| {
+        for i in 0..N_PROBES {
+            out[i] = p[i].replace(0);
+        }
+    });
+    out
+}
